@@ -66,12 +66,26 @@ C12(e) ==
           (IF edata # n.data \/ ~Same(e.post, n.ents, Len(n.ents)) THEN {V("a fault was swallowed and the operation's result or effect is wrong")} ELSE {})
      ELSE {}
 
+(* C09 on the version persisted (through a clone) right after a failed insert / delete: a persisted version is a persisted
+   version, whatever happened before it.                                                                                   *)
+V9(why) == [p |-> "C09", l |-> l, tr |-> Ev.id, why |-> why, h |-> 0]
+C09(e) ==
+  IF ~(e.res = "err" /\ e.call.op \in {"ins", "del"} /\ e.pok) THEN {} ELSE
+  LET n == Len(Entries(e.pterm))
+  IN (IF ~Shape(e.pterm, e.pheight, e.cfg.layers, e.cfg.nk + 1)
+      THEN {V9("a version persisted after a failed operation violates the shape invariants at its recorded height")} ELSE {})
+     \cup (IF e.psize = n THEN {}
+           \* named deviation (known finding C09-insert-grow-size): the entry went in, the grow step failed, the size was not incremented
+           ELSE IF e.call.op = "ins" /\ e.phase = "grow" /\ e.psize = n - 1
+           THEN {V9("after an Insert that failed in its grow step the persisted size is one less than the reachable entries")}
+           ELSE {V9("the size recorded in a version persisted after a failed operation differs from its reachable entries")})
+
 TFault == /\ l <= Len(Trace)
           /\ LET e == Ev
                  s1 == Bump(Bump(Bump(stat, "events"), e.kind), e.call.op)
                  s2 == BumpIf(BumpIf(BumpIf(s1, e.res = "err", "errs"), e.res = "ok", "oks"), e.res = "panic", "panics")
                  s3 == BumpIf(BumpIf(BumpIf(s2, e.res = "ok" /\ e.hit > 0, "swallowed"), e.hit = 0, "nothit"), e.at2 > 0, "pairs")
-             IN viol' = viol \cup C12(e) /\ stat' = s3
+             IN viol' = viol \cup C12(e) \cup C09(e) /\ stat' = s3
           /\ l' = l + 1
 TSpec == TInit /\ [][TFault]_tvars
 Report == (l = Len(Trace) + 1) => PrintT(<<"REPORT", ToJson([viol |-> viol, stat |-> stat, consumed |-> l - 1])>>)
